@@ -72,6 +72,7 @@ def cases(draw, big_ok=False):
         # transfer from its own (pre-populated) cache into the shared store as a remote
         "work": draw(st.sampled_from(["stage", "stage", "isave", "xfer"])),
         "hardlink": draw(st.sampled_from([False, False, True])),
+        "store_verify": draw(st.sampled_from([False, False, True])),
         # (thread, run length) pairs flattened: long runs park the other writers across several operations
         "schedule": [t for t, k in draw(st.lists(st.tuples(st.integers(0, 3), st.sampled_from([1, 1, 1, 2, 3, 5, 8, 21, 55])),
                                                  min_size=0, max_size=80)) for _ in range(k)][:600],
@@ -120,7 +121,10 @@ def writer_fn(case, d, i, shared_state=None):
         state = shared_state or State(root_dir=d, tmp_dir=os.path.join(d, "tmp"))
         work = case.get("work", "stage")
         try:
-            odb = LocalHashFileDB(fs, os.path.join(d, "store"), state=state)
+            # a store opened with verify=True (untrusted remotes are configured so): transfer() passes an explicit
+            # verify=False per call, save()/add() leave it to the store's setting
+            odb = LocalHashFileDB(fs, os.path.join(d, "store"), state=state,
+                                  **({"verify": True} if case.get("store_verify") else {}))
             if work == "isave":
                 idx = ibuild(os.path.join(d, f"wsroot{i}"), fs)
                 idx = md5(idx, state=state)
